@@ -1,0 +1,5 @@
+//go:build !verif
+
+package gocvss20
+
+func vhook(string, any, string) {}
